@@ -368,8 +368,7 @@ class Batch:
     def __init__(self, ctx, size=24):
         self.ctx, self.size, self.items = ctx, size, []
 
-    def add(self, req, replay_case, tags, nontrivial=True):
-        self.ctx.case({k: v for k, v in replay_case.items()}, nontrivial=nontrivial)
+    def add(self, req, replay_case, tags):
         self.items.append((req, replay_case, tags))
         if len(self.items) >= self.size:
             self.flush()
@@ -408,7 +407,8 @@ def judge(ctx, req, case, tags, r):
 def do_filter(ctx, batch, impl, mods, recipe, axis, keep, form, invert, inplace, tags=(), rng=None, deep=None):
     case = {"kind": "filter", "recipe": recipe, "axis": axis, "keep": keep, "form": form, "invert": invert,
             "inplace": inplace, "impl": impl}
-    ctx.journal(case)
+    spec = recipe["spec"]
+    ctx.case(case, nontrivial=len(spec["obs"]) * len(spec["samp"]) >= 2)   # journalled BEFORE the code under test runs
     if deep is None:
         deep = ctx.evaluations % 8 == 0
     req = run_filter(recipe, axis, keep, form, invert, inplace, mods, rng, deep=deep)
@@ -418,13 +418,12 @@ def do_filter(ctx, batch, impl, mods, recipe, axis, keep, form, invert, inplace,
     ctx.count("filter:form=%s" % form)
     ctx.count("filter:receiver-indices=%s" % ("unsorted" if unsorted else "sorted"))
     ctx.count("filter:impl=%s" % impl)
-    n = len(req["t"]["obs"]) * len(req["t"]["samp"])
-    batch.add(req, case, ["impl=" + impl, "form=" + form, "axis=" + axis] + list(tags), nontrivial=n >= 2)
+    batch.add(req, case, ["impl=" + impl, "form=" + form, "axis=" + axis] + list(tags))
 
 
 def do_remove_empty(ctx, batch, impl, mods, recipe, axis, inplace, tags=()):
     case = {"kind": "remove_empty", "recipe": recipe, "axis": axis, "inplace": inplace, "impl": impl}
-    ctx.journal(case)
+    ctx.case(case)
     req = run_remove_empty(recipe, axis, inplace, mods)
     ctx.count("remove_empty:axis=%s" % axis)
     batch.add(req, case, ["impl=" + impl, "remove_empty", "axis=" + axis] + list(tags))
@@ -432,7 +431,7 @@ def do_remove_empty(ctx, batch, impl, mods, recipe, axis, inplace, tags=()):
 
 def do_head(ctx, batch, impl, mods, recipe, n, m, tags=()):
     case = {"kind": "head", "recipe": recipe, "n": n, "m": m, "impl": impl}
-    ctx.journal(case)
+    ctx.case(case)
     req = run_head(recipe, n, m, mods)
     ctx.count("head:%s" % ("refused" if "error" in req["obs"]["result"] else "block"))
     batch.add(req, case, ["impl=" + impl, "head"] + list(tags))
@@ -441,11 +440,10 @@ def do_head(ctx, batch, impl, mods, recipe, n, m, tags=()):
 def do_kernel(ctx, batch, impl, mods, flat, ids, md, keep, form, invert, axis, tags=(), rng=None):
     case = {"kind": "kernel", "flat": flat, "ids": ids, "md": md, "keep": keep, "form": form, "invert": invert,
             "axis": axis, "impl": impl}
-    ctx.journal(case)
+    ctx.case(case, nontrivial=flat["nMajor"] >= 1)
     req = run_kernel(flat, ids, md, keep, form, invert, axis, mods, rng)
     ctx.count("kernel:impl=%s" % impl)
-    batch.add(req, case, ["impl=" + impl, "kernel", "form=" + form] + list(tags),
-              nontrivial=flat["nMajor"] >= 1)
+    batch.add(req, case, ["impl=" + impl, "kernel", "form=" + form] + list(tags))
 
 
 # ----------------------------------------------------------------------------- generators
@@ -525,6 +523,9 @@ def grid_list(ctx, shapes, sample=None):
 def _worker(args):
     """one shard of the exhaustive space in a forked process with its own Lean driver"""
     tier, seed, grids, full_upto = args
+    # the per-case journal of ./check (one file write per case) is kept by the main harness process only: four
+    # processes rewriting one file ~70 000 times cost minutes; a shard that dies is reported by collect()
+    os.environ.pop("VERIF_JOURNAL", None)
     ctx = core.Ctx("C08", tier, seed)
     impls = [(n, m) for n, m in kernels.kernel_impls() if m is not None]
     batch = Batch(ctx)
@@ -556,8 +557,13 @@ class Shards:
 
     def collect(self):
         ctx = self.ctx
-        for p in self.pending:
-            r = p.get()
+        for n, p in enumerate(self.pending):
+            try:
+                r = p.get(timeout=900)
+            except Exception as e:       # a forked shard died (interpreter crash in native code?) or hung
+                ctx.fail({"kind": "exhaustive-shard", "shard": n, "error": repr(e)},
+                         "a forked shard of the exhaustive space did not return", ("exhaustive", "shard-lost"))
+                continue
             ctx.evaluations += r["evaluations"]
             ctx.nontrivial += r["nontrivial"]
             for k, v in r["dist"].items():
@@ -741,7 +747,7 @@ def kernel_cases(ctx, batch, impls, n_cases, fixed=True):
 
 def do_cli_head(ctx, batch, spec, fmt, n, m, tmpdir, tags=()):
     case = {"kind": "cli_head", "spec": spec, "fmt": fmt, "n": n, "m": m}
-    ctx.journal(case)
+    ctx.case(case)
     req = run_cli_head(spec, fmt, n, m, tmpdir)
     ctx.count("cli-head:fmt=%s" % fmt)
     batch.add(req, case, ["cli-head", "fmt=" + fmt] + list(tags))
